@@ -9,10 +9,14 @@ def run(ctx):
                 "error, CONNECT tunnel and Upgrade with the report deferred to the tunnel's end, rejected CONNECT, MITM hand-off "
                 "followed by inner requests, client abort while uploading / downloading, failed write of the CONNECT 200), the "
                 "in-flight gauge and request counter, and once-only close callbacks under concurrent closers; model-checked with "
-                "three mutants. TLC -simulate histories of exchange kinds on 3 connections are driven through a real HTTPProxy "
+                "four mutants. TLC -simulate histories of exchange kinds on 3 connections are driven through a real HTTPProxy "
                 "with its Prometheus registry; gathered values at quiescence are validated by TLC against the model and compared "
                 "per status code; conntrack is hammered with concurrent closers and byte transfers. Non-trivial = history of >1 step.")
     ctx.mc("Accounting.tla", "MC_Accounting.cfg")
+    for m in ("NoReportAfterTunnel", "ReportTwiceOnConnect", "NoOnce", "MitmReportAtHandoff"):
+        ok, _, _, _ = ctx.mc("Accounting.tla", "MC_Accounting_%s.cfg" % m, expect_ok=False)
+        if ok:
+            raise vlib.Infra("Accounting mutant %s not detected by the model" % m)
     binp = ctx.build()
     n = 120 if q else 3000
     recs, g, d, _ = ctx.gen("Accounting.tla", "GEN_Accounting.cfg", simulate="num=%d" % n, workers=1, timeout=1500, depth=45)
